@@ -48,6 +48,11 @@ fn bad_region(class: &str, tail: &[u8]) -> Option<Vec<u8>> {
     Some(v)
 }
 
+/// Timestamps a case is built with: the current one, or for ExtremeTimestamp the ends of the 64-bit range and of its signed half.
+fn stamps(class: &str, now: u64) -> Vec<u64> {
+    if class == "ExtremeTimestamp" { vec![0, 1, (1u64 << 63) - 1, 1u64 << 63, u64::MAX - 1, u64::MAX] } else { vec![now] }
+}
+
 fn outcome(g: &Got) -> &'static str {
     match g {
         Got::Err(_) => "refused",
@@ -87,6 +92,11 @@ fn run_case(dec: &str, class: &str, rng: &mut SmallRng) -> Vec<(String, Got)> {
                         v.push(0);
                         v
                     }
+                    "ExtremeTimestamp" => {
+                        let mut v = good_addr();
+                        v.extend_from_slice(&[0, 0, b'x']);
+                        v
+                    }
                     _ => match bad_region(class, &[0, 0, b'x']) {
                         Some(v) => v,
                         None => continue,
@@ -94,30 +104,65 @@ fn run_case(dec: &str, class: &str, rng: &mut SmallRng) -> Vec<(String, Got)> {
                 };
                 let (cp, _, _) = sut::ss_passwords(c, 0);
                 let (key, _) = rc::keys_2022(&cp);
-                let mut salt = vec![0u8; c.key_len()];
-                rng.fill(&mut salt[..]);
-                // hand-made request: salt | seal(type ts len) | seal(var)
-                let sub = rc::session_subkey(&key, &salt);
-                let mut fixed = vec![0u8];
-                fixed.extend_from_slice(&now.to_be_bytes());
-                fixed.extend_from_slice(&(var.len() as u16).to_be_bytes());
-                let mut wire = salt.clone();
-                wire.extend_from_slice(&rc::seal(c, &sub, &rc::le_nonce(0), &fixed));
-                wire.extend_from_slice(&rc::seal(c, &sub, &rc::le_nonce(1), &var));
-                let l = sv::listener(&sut::ss_server_cfg(c, 0)).unwrap();
-                out.push((c.name().to_owned(), sut::server_decode(&mut l.new_codec().unwrap(), &mut BytesMut::from(&wire[..]))));
+                for ts in stamps(class, now) {
+                    let mut salt = vec![0u8; c.key_len()];
+                    rng.fill(&mut salt[..]);
+                    // hand-made request: salt | seal(type ts len) | seal(var)
+                    let sub = rc::session_subkey(&key, &salt);
+                    let mut fixed = vec![0u8];
+                    fixed.extend_from_slice(&ts.to_be_bytes());
+                    fixed.extend_from_slice(&(var.len() as u16).to_be_bytes());
+                    let mut wire = salt.clone();
+                    wire.extend_from_slice(&rc::seal(c, &sub, &rc::le_nonce(0), &fixed));
+                    wire.extend_from_slice(&rc::seal(c, &sub, &rc::le_nonce(1), &var));
+                    let l = sv::listener(&sut::ss_server_cfg(c, 0)).unwrap();
+                    out.push((format!("{} ts {ts:#x}", c.name()), sut::server_decode(&mut l.new_codec().unwrap(), &mut BytesMut::from(&wire[..]))));
+                }
+            }
+        }
+        "ss2022-resp" => {
+            // the server's answer to a real client's request: salt | seal(type 1, ts, request salt, len) | seal(payload)
+            for c in [Cipher::Aes128Gcm2022, Cipher::Aes256Gcm2022, Cipher::ChaCha8Poly1305_2022, Cipher::ChaCha20Poly1305_2022] {
+                let (cp, _, _) = sut::ss_passwords(c, 0);
+                let (key, _) = rc::keys_2022(&cp);
+                for ts in stamps(class, now) {
+                    let addr = Addr::Domain(b"example.com".to_vec(), 443);
+                    let mut client = cv::tcp_codec(&sut::ss_client_cfg(c, 0), &addr.to_octo()).unwrap();
+                    let mut c2s = BytesMut::new();
+                    if Encoder::encode(&mut client, BytesMut::from(&b"hello"[..]), &mut c2s).is_err() {
+                        continue;
+                    }
+                    let req_salt = c2s[..c.key_len()].to_vec();
+                    let mut salt = vec![0u8; c.key_len()];
+                    rng.fill(&mut salt[..]);
+                    let sub = rc::session_subkey(&key, &salt);
+                    let mut fixed = vec![1u8];
+                    fixed.extend_from_slice(&ts.to_be_bytes());
+                    fixed.extend_from_slice(&req_salt);
+                    fixed.extend_from_slice(&4u16.to_be_bytes());
+                    let mut wire = salt.clone();
+                    wire.extend_from_slice(&rc::seal(c, &sub, &rc::le_nonce(0), &fixed));
+                    wire.extend_from_slice(&rc::seal(c, &sub, &rc::le_nonce(1), b"pong"));
+                    out.push((format!("{} ts {ts:#x}", c.name()), sut::client_decode(&mut client, &mut BytesMut::from(&wire[..]))));
+                }
             }
         }
         "ss2022-udp-c2s" | "ss2022-udp-s2c" => {
             let s2c = dec.ends_with("s2c");
             for c in [Cipher::Aes128Gcm2022, Cipher::Aes256Gcm2022, Cipher::ChaCha8Poly1305_2022, Cipher::ChaCha20Poly1305_2022] {
                 // body after (type ts [client sid]): padlen padding addr payload
+              for ts in stamps(class, now) {
                 let mut body = vec![if s2c { 1u8 } else { 0u8 }];
-                body.extend_from_slice(&now.to_be_bytes());
+                body.extend_from_slice(&ts.to_be_bytes());
                 if s2c {
                     body.extend_from_slice(&7u64.to_be_bytes());
                 }
                 match class {
+                    "ExtremeTimestamp" => {
+                        body.extend_from_slice(&0u16.to_be_bytes());
+                        body.extend_from_slice(&good_addr());
+                        body.extend_from_slice(b"dgram");
+                    }
                     "PaddingBeyond" => {
                         body.extend_from_slice(&700u16.to_be_bytes());
                         body.extend_from_slice(&[1, 2, 3]);
@@ -137,7 +182,8 @@ fn run_case(dec: &str, class: &str, rng: &mut SmallRng) -> Vec<(String, Got)> {
                 } else {
                     ssudp::server_decode(c, &sut::key_b64(c, 1), &[], &wire)
                 };
-                out.push((c.name().to_owned(), got));
+                out.push((format!("{} ts {ts:#x}", c.name()), got));
+              }
             }
         }
         "ss-legacy-udp" => {
